@@ -213,6 +213,7 @@ def run_check(tier, seed):
     n_ooo = out_of_order_family(run, r, 12 if tier == 'quick' else 150)
     run.cov['search_out_of_order'] = n_ooo
     run.cov['search_cut_use_close'] = cut_use_close_family(run, r, 6 if tier == 'quick' else 60)
+    run.cov['search_snapshot_sessions'] = snapshot_session_family(run, r, 10 if tier == 'quick' else 120)
     run.sample(dict(theorem='%s.%s' % thms[0][:1] + (thms[0][1]['name'],) if False else thms[0][1]['name'], steps=thms[0][1]['steps'][:2]))
     run.cov['rule'] = ('structural ops on random well-numbered proofs (3-6 lines, nested blocks); replay of the recorded steps of library '
                        'theorems (%s) with invariants after every step, each step first on a copy, 30%% repeated; non-trivial = every case'
@@ -300,6 +301,83 @@ def out_of_order_family(run, r, n_goals):
                         # the shared structure has been damaged: restart from a clean replay is not needed, the verdict stands
                         return stats
                     check_state(run, keep, goal, name, 'copy kept aside while %s was applied at %s' % (edit['method_name'], gid))
+    return stats
+
+
+def snapshot_session_family(run, r, n):
+    """The editor's pattern: after every step a snapshot (copy) of the state is kept and the next step is applied to a copy of
+    that snapshot.  Goals with two or three existential assumptions, eliminated one after the other in a random order in the
+    same scope (the closing line of the scope collects one more argument and four more citations each time), sometimes
+    after the conclusion has been split; the snapshot must stay exactly as it was, keep its invariants and re-check."""
+    from kernel.type import BoolType, NatType, TFun
+    from kernel.term import Var
+    stats = dict(goals=0, steps=0)
+    for gi in range(n):
+        k = r.choice([2, 2, 3])
+        preds = ['P', 'Q', 'R'][:k]
+        concl = r.choice(['C', 'C', 'C & D', '(C & D) & C', 'C --> D'])
+        text = ' --> '.join(['(?%s::nat. %s %s)' % (v, p_, v) for v, p_ in zip('xyz', preds)] + [concl])
+        name = 'generated.%s' % text
+        try:
+            context.set_context('nat', vars=dict({p_: TFun(NatType, BoolType) for p_ in 'PQR'}, C=BoolType, D=BoolType))
+            goal_t = parser.parse_term(text)
+            state = server.parse_init_state(goal_t)
+            goal = Thm(goal_t)
+        except RecursionError:
+            raise
+        except Exception as e:
+            run.stat('snap_setup_exc:' + type(e).__name__)
+            continue
+        stats['goals'] += 1
+        todo = list(range(k))
+        r.shuffle(todo)
+        pre = []
+        if '&' in concl and r.random() < 0.6:
+            pre = ['split'] * (2 if concl.startswith('(') and r.random() < 0.6 else 1)
+        plan = pre + [('elim', j) for j in todo]
+        if r.random() < 0.3 and pre:
+            r.shuffle(plan)
+        names = iter(['u', 'v', 'w'])
+        for si, act in enumerate(plan):
+            gaps = gaps_of(state)
+            if not gaps:
+                break
+            gid = gaps[0]
+            if act == 'split':
+                step = {'method_name': 'apply_backward_step', 'goal_id': '.'.join(map(str, gid)), 'theorem': 'conjI'}
+            else:
+                # the assumption line of the j-th existential fact
+                fact = None
+                for pos, it in all_items(state.prf):
+                    if it.rule == 'assume' and it.th is not None and it.th.prop.is_exists() and it.th.prop.arg.body.fun == Var(preds[act[1]], TFun(NatType, BoolType)):
+                        fact = pos
+                        break
+                if fact is None:
+                    run.stat('snap_fact_not_found')
+                    break
+                step = {'method_name': 'exists_elim', 'goal_id': '.'.join(map(str, gid)),
+                        'fact_ids': ['.'.join(map(str, fact))], 'names': next(names)}
+            snapshot = copy.copy(state)
+            before = (export_lines(snapshot), shape_snapshot(snapshot.prf))
+            work = copy.copy(snapshot)
+            try:
+                method.apply_method(work, step)
+                work.check_proof(compute_only=True)
+            except RecursionError:
+                raise
+            except Exception as e:
+                run.stat('snap_step_exc:%s:%s' % (step['method_name'], type(e).__name__))
+                break
+            stats['steps'] += 1
+            run.count(('snapshot', text, si, step['method_name'], step['goal_id']), nontrivial=True)
+            if (export_lines(snapshot), shape_snapshot(snapshot.prf)) != before:
+                run.violation('property', 'applying %s at %s to a copy of a snapshot changed the snapshot; goal %s, step %d of the session'
+                              % (step['method_name'], step['goal_id'], text, si),
+                              dict(goal=text, step=step, before=before[0], after=export_lines(snapshot)), key='C13:copy-isolation')
+                return stats
+            check_state(run, snapshot, goal, name, 'snapshot kept while %s was applied to its copy (step %d)' % (step['method_name'], si))
+            check_state(run, work, goal, name, 'session step %d: %s at %s' % (si, step['method_name'], step['goal_id']))
+            state = work
     return stats
 
 
